@@ -85,7 +85,11 @@ var mutSample string // thorough tier: summary line of the sampled mutation swee
 
 var expectMode bool // gcv expect: keep every generated obligation while the list is being written
 
-func isErrProp(name string) bool { return strings.Contains(name, "#errprop[") }
+// isErrProp: the opt-in generated families (error propagation, option forwarding): a member counts only where the
+// expectation list has it.
+func isErrProp(name string) bool {
+	return strings.Contains(name, "#errprop[") || strings.Contains(name, "#optfwd[")
+}
 
 func isSafetyLabel(l string) bool {
 	for _, p := range []string{"alloc[", "bounds[", "div[", "panic[", "assert[", "strindex", "nilcall["} {
